@@ -2,7 +2,7 @@
    header) for the correspondence driver ocaml/drv_wire2_v6opts.ml.  ExtrOcamlBasic only; Z,
    positive, nat stay the extracted inductive types. *)
 From Coq Require Extraction ExtrOcamlBasic.
-From SV Require Import Lib.Base Model.WireBase Model.WireIpv6Opt Model.WireIpv6Hbh.
+From SV Require Import Lib.Base Model.WireBase Model.WireIpv6Opt Model.WireIpv6Hbh Model.WireIpv6Routing.
 Extraction Language OCaml.
 Cd "../ocaml/gen".
 Extraction "wire2v6opts_model.ml"
@@ -10,5 +10,7 @@ Extraction "wire2v6opts_model.ml"
   v6opt_check_len v6opt_option_type v6opt_data_len v6opt_data v6opt_failure_type
   v6opt_parse v6opt_buffer_len v6opt_emit v6opt_wf v6opt_iter
   v6hbh_check_len v6hbh_options v6hbh_parse v6hbh_buffer_len v6hbh_emit v6hbh_wf
-  v6hbh_mldv2_router_alert v6hbh_push_padn_option.
+  v6hbh_mldv2_router_alert v6hbh_push_padn_option
+  v6rt_check_len v6rt_routing_type v6rt_segments_left v6rt_home_address v6rt_cmpr_i v6rt_cmpr_e v6rt_pad
+  v6rt_addresses v6rt_parse v6rt_buffer_len v6rt_emit v6rt_wf.
 Cd "../../coq".
